@@ -702,6 +702,34 @@ Proof.
   eapply ref_strong; eauto. eapply lookup_b_refs; eauto. eapply read_unixfd_in; eauto.
 Qed.
 
+Lemma read_all_in fds idxs : forall os, read_all fds idxs = Some os -> forall o, In o os -> In o fds.
+Proof.
+  induction idxs as [|i r IH]; intros os H o Ho; cbn in H.
+  - injection H as <-. destruct Ho.
+  - destruct (read_unixfd fds i) as [o1|] eqn:E1; [|discriminate].
+    destruct (read_all fds r) as [os1|]; [|discriminate]. injection H as <-.
+    destruct Ho as [<-|Ho]; [eapply read_unixfd_in; eauto|eapply IH; eauto].
+Qed.
+
+Lemma refs_add_clone s o x : In x (refs s) -> In x (refs (add_hnd o (clone_obj o s))).
+Proof.
+  unfold refs. cbn. rewrite !in_app_iff, flat_map_app, in_app_iff. tauto.
+Qed.
+
+Lemma inv_clone_all os : forall s, inv0 [] s -> (forall o, In o os -> In o (refs s)) -> inv0 [] (clone_all os s).
+Proof.
+  induction os as [|o r IH]; intros s I H; cbn [clone_all fold_left]; auto.
+  change (fold_left _ r ?x) with (clone_all r x). apply IH.
+  - apply inv_add_hnd. apply inv_clone_obj; auto. eapply ref_strong; eauto. apply H. now left.
+  - intros x Hx. apply refs_add_clone. apply H. now right.
+Qed.
+
+Lemma inv_decode_at s b bd idxs : lookup_b s b = Some bd -> inv0 [] s -> inv0 [] (fst (decode_at bd idxs s)).
+Proof.
+  intros Hb I. unfold decode_at. destruct (read_all (bfds bd) idxs) as [os|] eqn:E; cbn [fst]; auto.
+  apply inv_clone_all; auto. intros o Ho. eapply lookup_b_refs; eauto. eapply read_all_in; eauto.
+Qed.
+
 Lemma step_inv0 s o : inv0 [] s -> inv0 [] (fst (step s o)).
 Proof.
   intros I. destruct o; cbn [step].
@@ -732,6 +760,13 @@ Proof.
   - (* Unmarshal *) destruct (lookup_b s b) as [bd|] eqn:E; cbn [fst]; auto. eapply inv_unmarshal_at; eauto.
   - (* Parse *) destruct (lookup_b s b) as [bd|] eqn:E; cbn [fst]; auto.
     destruct (nth_error (bidx bd) j); cbn [fst]; auto. eapply inv_unmarshal_at; eauto.
+  - (* Decode *) destruct (lookup_b s b) as [bd|] eqn:E; cbn [fst]; auto.
+    destruct (k <=? length (bidx bd))%nat; cbn [fst]; auto. eapply inv_decode_at; eauto.
+  - (* DecodeOwned *) destruct (lookup_b s b) as [bd|] eqn:E; cbn [fst]; auto.
+    destruct (read_all (bfds bd) (bidx bd)) eqn:Er.
+    + eapply inv_decode_at; eauto.
+    + cbn [fst]. apply inv_drop_objs. rewrite app_nil_r.
+      eapply inv_set_body; [apply lookup_b_nth; eauto| |exact I]. intros o. cbn [bref bfds]. lia.
   - (* Clone *) destruct (lookup_h s h) as [o|] eqn:E; cbn [fst]; auto.
     apply inv_add_hnd. apply inv_clone_obj; auto. eapply ref_strong; eauto. eapply lookup_h_refs; eauto.
   - (* DupH *) destruct (lookup_h s h) as [o|] eqn:E; cbn [fst]; auto.
@@ -805,6 +840,14 @@ Qed.
 Lemma wkey_unmarshal_at bd idx s : wkey (fst (unmarshal_at bd idx s)) = wkey s.
 Proof. unfold unmarshal_at. destruct (read_unixfd _ _); reflexivity. Qed.
 
+Lemma wkey_clone_all os : forall s, wkey (clone_all os s) = wkey s.
+Proof.
+  induction os as [|o r IH]; intros s; cbn [clone_all fold_left]; auto.
+  change (fold_left _ r ?x) with (clone_all r x). now rewrite IH.
+Qed.
+Lemma wkey_decode_at bd idxs s : wkey (fst (decode_at bd idxs s)) = wkey s.
+Proof. unfold decode_at. destruct (read_all _ _); cbn [fst]; auto. apply wkey_clone_all. Qed.
+
 Lemma wire_ok_wkey s s' : wkey s' = wkey s -> wire_ok s -> wire_ok s'.
 Proof. unfold wire_ok, wkey, sent_msgs, recv_msgs. intros [= -> -> ->]. auto. Qed.
 
@@ -835,6 +878,11 @@ Proof.
   - destruct (lookup_b s b); cbn [fst]; auto. apply (wire_ok_wkey s); [|exact W]. apply wkey_unmarshal_at.
   - destruct (lookup_b s b) as [bd|]; cbn [fst]; auto. destruct (nth_error (bidx bd) j); cbn [fst]; auto.
     apply (wire_ok_wkey s); [|exact W]. apply wkey_unmarshal_at.
+  - destruct (lookup_b s b) as [bd|]; cbn [fst]; auto. destruct (k <=? length (bidx bd))%nat; cbn [fst]; auto.
+    apply (wire_ok_wkey s); [|exact W]. apply wkey_decode_at.
+  - destruct (lookup_b s b) as [bd|]; cbn [fst]; auto. destruct (read_all (bfds bd) (bidx bd)).
+    + apply (wire_ok_wkey s); [|exact W]. apply wkey_decode_at.
+    + cbn [fst]. apply (wire_ok_wkey s); [|exact W]. now rewrite wkey_drop_objs.
   - destruct (lookup_h s h); cbn [fst]; auto.
   - destruct (lookup_h s h) as [o|]; cbn [fst]; auto. destruct (cell (objs s o)) as [f|]; cbn [fst]; auto.
     destruct (tab s f) as [od|]; cbn [fst]; auto.
@@ -1132,6 +1180,91 @@ Proof.
     + exfalso. apply nth_error_None in En. unfold len in L. lia.
 Qed.
 
+(** ** The dynamic API decodes descriptors exactly like the typed one *)
+
+Lemma read_all_none fds idxs i : In i idxs -> len fds <= i -> read_all fds idxs = None.
+Proof.
+  induction idxs as [|j r IH]; intros Hi L; [destruct Hi|]. cbn.
+  destruct Hi as [->|Hi].
+  - unfold read_unixfd. destruct (N.leb_spec (len fds) i); [reflexivity|lia].
+  - rewrite IH by auto. now destruct (read_unixfd fds j).
+Qed.
+
+Lemma read_all_some fds idxs : (forall i, In i idxs -> i < len fds) ->
+  exists os, read_all fds idxs = Some os
+             /\ Forall2 (fun i o => nth_error fds (N.to_nat i) = Some o) idxs os.
+Proof.
+  induction idxs as [|j r IH]; intros H; cbn.
+  - exists []. split; auto.
+  - destruct IH as (os & E & F); [intros i Hi; apply H; now right|].
+    unfold read_unixfd. destruct (N.leb_spec (len fds) j) as [L|L]; [specialize (H j (or_introl eq_refl)); lia|].
+    destruct (nth_error fds (N.to_nat j)) as [o|] eqn:En.
+    + rewrite E. exists (o :: os). split; auto.
+    + exfalso. apply nth_error_None in En. unfold len in L. lia.
+Qed.
+
+Lemma clone_all_spec os : forall s,
+  hnd (clone_all os s) = hnd s ++ map Some os /\ tab (clone_all os s) = tab s
+  /\ bods (clone_all os s) = bods s /\ cfds (clone_all os s) = cfds s /\ log (clone_all os s) = log s
+  /\ wire (clone_all os s) = wire s
+  /\ forall x, cell (objs (clone_all os s) x) = cell (objs s x)
+               /\ strong (objs (clone_all os s) x) = (strong (objs s x) + cnt x os)%nat.
+Proof.
+  induction os as [|o r IH]; intros s; cbn [clone_all fold_left].
+  - rewrite app_nil_r. repeat split; auto; try (rewrite cnt_nil; lia).
+  - change (fold_left _ r ?x) with (clone_all r x).
+    destruct (IH (add_hnd o (clone_obj o s))) as (A & B & C & D & E & F & G).
+    rewrite A, B, C, D, E, F. cbn [add_hnd clone_obj set_hnd set_objs hnd tab bods cfds log wire map].
+    rewrite <- app_assoc. repeat split; auto; destruct (G x) as [G1 G2]; cbn [add_hnd clone_obj set_hnd set_objs objs] in G1, G2.
+    + rewrite G1. destruct (Nat.eq_dec x o) as [->|Ne]; [now rewrite updn_eq|now rewrite updn_neq].
+    + rewrite G2. destruct (Nat.eq_dec x o) as [->|Ne].
+      * rewrite updn_eq, cnt_cons_eq. cbn. lia.
+      * rewrite updn_neq, cnt_cons_neq by congruence. reflexivity.
+Qed.
+
+(** what a successful dynamic decode of the stored indices [idxs] leaves: one new variable per
+    index, on the object at that index; no descriptor is created, closed or changed *)
+Definition decoded (s s' : st) (bd : body) (idxs : list N) (r : res) : Prop :=
+  exists os, r = RHandles (seq (length (hnd s)) (length os))
+    /\ Forall2 (fun i o => nth_error (bfds bd) (N.to_nat i) = Some o) idxs os
+    /\ hnd s' = hnd s ++ map Some os /\ tab s' = tab s /\ bods s' = bods s /\ cfds s' = cfds s
+    /\ closes s' = closes s
+    /\ forall x, cell (objs s' x) = cell (objs s x)
+                 /\ strong (objs s' x) = (strong (objs s x) + cnt x os)%nat.
+
+Lemma decode_at_spec s bd idxs s' r :
+  decode_at bd idxs s = (s', r) ->
+  ((exists i, In i idxs /\ len (bfds bd) <= i) -> r = RErr /\ s' = s)
+  /\ ((forall i, In i idxs -> i < len (bfds bd)) -> decoded s s' bd idxs r).
+Proof.
+  unfold decode_at. intros H. split.
+  - intros (i & Hi & L). rewrite (read_all_none _ _ i Hi L) in H. injection H as <- <-. auto.
+  - intros Hall. destruct (read_all_some _ _ Hall) as (os & E & F). rewrite E in H. injection H as <- <-.
+    destruct (clone_all_spec os s) as (A & B & C & D & G & _ & K).
+    exists os. unfold closes. rewrite G. repeat split; auto; apply K.
+Qed.
+
+Lemma decode_spec s b bd k s' r :
+  lookup_b s b = Some bd -> (k <= length (bidx bd))%nat -> step s (Decode b k) = (s', r) ->
+  ((exists i, In i (firstn k (bidx bd)) /\ len (bfds bd) <= i) -> r = RErr /\ s' = s)
+  /\ ((forall i, In i (firstn k (bidx bd)) -> i < len (bfds bd)) -> decoded s s' bd (firstn k (bidx bd)) r).
+Proof.
+  intros Hb Hk H. cbn [step] in H. rewrite Hb in H.
+  destruct (Nat.leb_spec k (length (bidx bd))); [|lia]. now apply decode_at_spec.
+Qed.
+
+Lemma decode_owned_spec s b bd s' r :
+  lookup_b s b = Some bd -> step s (DecodeOwned b) = (s', r) ->
+  ((exists i, In i (bidx bd) /\ len (bfds bd) <= i) -> r = RErr /\ s' = fst (step s (DropBody b)))
+  /\ ((forall i, In i (bidx bd) -> i < len (bfds bd)) -> decoded s s' bd (bidx bd) r).
+Proof.
+  intros Hb H. cbn [step] in H. rewrite Hb in H. split.
+  - intros (i & Hi & L). rewrite (read_all_none _ _ i Hi L) in H. injection H as <- <-.
+    cbn [step]. rewrite Hb. auto.
+  - intros Hall. destruct (read_all_some _ _ Hall) as (os & E & _). rewrite E in H.
+    destruct (decode_at_spec s bd (bidx bd) s' r H) as [_ X]. auto.
+Qed.
+
 (** ** Sending and receiving *)
 
 Lemma len_filter_some_all {A} (l : list (option A)) : (forall x, In x l -> x <> None) -> len (filter_some l) = len l.
@@ -1269,6 +1402,8 @@ Lemma c11_state ops :
   (* the caller's descriptors: open, the file they were opened for, never closed by the library *)
   (forall f, In f (caller_fds s) -> tab s f <> None /\ ~ In f (closes s) /\ ~ held s f)
   /\ (forall f o, In (EvOpen f o) (log s) -> In f (caller_fds s) -> tab s f = Some o)
+  (* a descriptor with a live handle is open and has not been closed *)
+  /\ (forall f, held s f -> tab s f <> None /\ ~ In f (closes s) /\ In f (lib_owned s))
   (* never a double close, never a close of something the library does not own *)
   /\ NoDup (closes s)
   /\ (forall f, In f (closes s) -> In f (lib_owned s) /\ tab s f = None)
@@ -1294,6 +1429,9 @@ Proof.
   - rewrite Hh. intros [o Ho]. apply (i_callerhist _ _ I) in H. apply (i_cell _ _ I) in Ho. tauto.
   - intros f o Ho Hc. apply (i_callerhist _ _ I) in Hc. apply (i_cfds _ _ I) in Hc.
     destruct (i_born _ _ I f o (or_introl Ho)) as [_ [X|X]]; tauto.
+  - apply Hh in H. destruct H as [o Ho]. now apply (i_cell _ _ I) in Ho.
+  - apply Hh in H. destruct H as [o Ho]. now apply (i_cell _ _ I) in Ho.
+  - apply Hh in H. destruct H as [o Ho]. now apply (i_cell _ _ I) in Ho.
   - apply (i_closes_nodup _ _ I).
   - now apply (i_closes _ _ I) in H.
   - now apply (i_closes _ _ I) in H.
